@@ -181,6 +181,7 @@ func checkC13(c *Ctx) {
 	c13ReconnectDuringClose(c)
 	c13StalledReader(c)
 	c13HugeBody(c)
+	platformProbe(c, "C13", "plainprobe") // plaintext requests whose Content-Length does not fit a 32-bit int: host, 386, js/wasm
 	if c.NumViolations() > 0 {
 		return // the in-process streams below share the storage lock with this process
 	}
@@ -476,6 +477,8 @@ func c13ConnectionFlood(c *Ctx) {
 		stop := make(chan struct{})
 		var wg sync.WaitGroup
 		var churned int64
+		var droppedMu sync.Mutex
+		dropped := ""
 		for g := 0; g < 12; g++ {
 			wg.Add(1)
 			go func(g int) {
@@ -534,6 +537,15 @@ func c13ConnectionFlood(c *Ctx) {
 						_, err = cl.Do("GET", "/accessories", "", nil)
 					}
 					if err != nil {
+						// a timeout under this load is no finding; a connection that is gone is one: the request of a
+						// verified controller was answered by a dropped connection (a handler panicked)
+						if es := err.Error(); k > 0 && (strings.Contains(es, "EOF") || strings.Contains(es, "reset") || strings.Contains(es, "broken pipe")) {
+							droppedMu.Lock()
+							if dropped == "" {
+								dropped = fmt.Sprintf("controller %d, request %d (%s): %s", g, k, []string{"subscribe / unsubscribe", "subscribe / unsubscribe", "write a value", "GET /accessories"}[g], es)
+							}
+							droppedMu.Unlock()
+						}
 						return
 					}
 					cl.Events = nil
@@ -545,6 +557,10 @@ func c13ConnectionFlood(c *Ctx) {
 		wg.Wait()
 		time.Sleep(100 * time.Millisecond)
 		c.Count("e2e-churn", acc.Alive(), "e2e:churn")
+		if dropped != "" && acc.Alive() {
+			c.Violate("a request of a verified controller is answered by a dropped connection while other peers connect and disconnect", id,
+				map[string]interface{}{"goroutines_connecting_and_closing": 12, "connections": atomic.LoadInt64(&churned), "verified_controllers": 4}, "a response", dropped)
+		}
 		if !acc.Alive() {
 			c.Violate("the accessory process ends when many connections come and go at once", id, map[string]interface{}{"goroutines_connecting_and_closing": 12, "connections": atomic.LoadInt64(&churned)}, "still running", "exited")
 			return
@@ -742,6 +758,43 @@ func checkC13E2E(c *Ctx) {
 		time.Sleep(50 * time.Millisecond)
 		if !acc.Alive() {
 			c.Violate("remote input ends the accessory process", id, map[string]interface{}{"scenario": desc, "request": trunc(req, 300)}, "accessory keeps serving", "process exited")
+			return
+		}
+	}
+	// ---- a frame that arrives in two parts around the answer to the previous request (net/http aborts its pending read —
+	// with a deadline in the past — when a handler returns; a part of a frame may have arrived by then)
+	for _, cut := range []int{1, 2, 3, 25} {
+		cl, err := acc.Dial()
+		if err != nil {
+			c.Violate("accessory does not accept connections any more", id, cut, "connect", err.Error())
+			return
+		}
+		vr := refPairVerify(r, cl.Post(), ident, sr.AccLTPK)
+		if vr.Shared == nil {
+			c.Violate("paired reference controller cannot verify", id, cut, "verified", vr.ErrAt)
+			cl.Close()
+			continue
+		}
+		cl.Upgrade(vr.Shared)
+		cl.timeout = 3 * time.Second
+		a := cl.sess.Encrypt([]byte(fmt.Sprintf("GET /characteristics?id=%d.%d HTTP/1.1\r\nHost: acc.local\r\n\r\n", swID, onID)))
+		b := cl.sess.Encrypt([]byte("GET /accessories HTTP/1.1\r\nHost: acc.local\r\n\r\n"))
+		cl.conn.Write(append(append([]byte{}, a...), b[:cut]...))
+		ma, err := cl.next(cl.timeout)
+		var mb *refMsg
+		if err == nil && ma != nil {
+			time.Sleep(3 * time.Millisecond)
+			cl.conn.Write(b[cut:])
+			mb, err = cl.next(cl.timeout)
+		}
+		desc := fmt.Sprintf("tcp verified connection: a request, and in the same segment the first %d bytes of the frame of the next one; the rest after the first answer", cut)
+		c.Count(desc, true, "e2e:split-frame")
+		if err != nil || ma == nil || mb == nil {
+			c.Violate("a well-formed request of a verified controller is not answered (its frame arrived in two parts around the previous answer)", id, desc, "two answers", fmt.Sprint(err, ma, mb))
+		}
+		cl.Close()
+		if !acc.Alive() {
+			c.Violate("remote input ends the accessory process", id, desc, "accessory keeps serving", "process exited")
 			return
 		}
 	}
